@@ -569,7 +569,7 @@ func c11Allocator(c *Ctx, rule string) {
 					}
 				}
 			case *ast.UnaryExpr:
-				if y.Op == token.AND {
+				if y.Op == token.AND && !addrIsWriteOperand(f, y) {
 					if s, ok := ast.Unparen(y.X).(*ast.SelectorExpr); ok {
 						if v := fieldVar(f, s); v != nil && v.Name() == "nextFreeOffset" {
 							sel, kind = s, "&"
@@ -630,8 +630,11 @@ func c11Allocator(c *Ctx, rule string) {
 				if nn == adv {
 					return Cut
 				}
-				if r, ok := nn.(*ast.ReturnStmt); ok && g.ReturnMayBeNil(r) {
-					return Hit
+				if r, ok := nn.(*ast.ReturnStmt); ok {
+					if g.ReturnMayBeNil(r) {
+						return Hit
+					}
+					return Cut // an error return ends the path
 				}
 				return Go
 			}, func(b *cfg.Block) Verdict { return Hit })
